@@ -262,6 +262,37 @@ theorem tickEff_safe {fp : Foot} (hfp : fp.threadOK = true) (cap : Nat) (g : Glo
         simp only [stepEff]
         exact ⟨trivial, base, fun w e => by simp only [Option.some.injEq] at e; subst e; exact ht⟩
 
+/-- Safe steps never win a compare-exchange. -/
+theorem tickEff_safe_wins (fp : Foot) (cap : Nat) (g : Glob) (τ : Nat) (x : Thr D)
+    (hp : ∀ s ∈ x.pend, StepSafe τ s) : (tickEff fp cap g x).x.wins = x.wins := by
+  cases hd : x.dead with
+  | true => rw [tickEff_dead fp cap g x hd]
+  | false =>
+    cases p : x.pend with
+    | nil =>
+      cases k : x.calls with
+      | nil => rw [tickEff_stopped fp cap g x p k]
+      | cons k1 ks => rw [tickEff_call fp cap g x hd p k1 ks k]
+    | cons s r =>
+      rw [tickEff_step fp cap g x hd s r p]
+      have hs : StepSafe τ s := hp s (by simp [p])
+      cases s with
+      | st op =>
+        cases op with
+        | load e =>
+          cases e with
+          | none => rfl
+          | some v => simp only [stepEff]; split <;> rfl
+        | store v => exact absurd hs (by simp [StepSafe])
+        | cas a b => exact absurd hs (by simp [StepSafe])
+        | unknown => exact absurd hs (by simp [StepSafe])
+      | procWrite m src => exact absurd hs (by simp [StepSafe])
+      | loc f =>
+        simp only [stepEff]
+        cases f.run cap g.proc x.t <;> rfl
+      | fsObs => rfl
+      | fsJson => rfl
+
 /-- Every thread is safe w.r.t. its own tid. -/
 def SafeCfg (tidOf : Nat → Nat) (c : Cfg D) : Prop := ∀ i, ThrSafe (tidOf i) (c.th i)
 
